@@ -10,7 +10,9 @@
 // that stems from an earlier call (the stream's Context(), a context an
 // interceptor was handed, the caller's own, or one derived from those). Method-name cases
 // (names.go) repeat the single-call cases with every spelling of the method name and with
-// interceptors that hand on another name.
+// interceptors that hand on another name. Chain cases (chain.go) put user-written wrappers of every type shape
+// (pointer, comparable value, non-comparable value) into the slots beneath and between the layers and vary the
+// shape of the root channel.
 package main
 
 import (
@@ -73,6 +75,11 @@ type caseT struct {
 	// Seq, when set, makes this a SEQUENCE case (see seq.go): three calls, the second and third on a context
 	// that stems from the first; Ctx is unused (all contexts stay live).
 	Seq *seqCase `json:"sequence,omitempty"`
+	// Wraps and Root (chain.go): Wraps[i] = the foreign wrappers in the slot beneath layer i+1 (directly on the
+	// root for i = 0), innermost first, one letter each (P C S F); Root = shape of the recording base: "" (a
+	// pointer) | "value" (a non-comparable struct value) | "terminal" (a wrapper whose Unwrap() returns nil).
+	Wraps []string `json:"foreign,omitempty"`
+	Root  string   `json:"root,omitempty"`
 }
 
 type reCase struct {
@@ -107,13 +114,14 @@ func (c caseT) String() string {
 	if c.Ctx != 0 {
 		s += " ctx=" + []string{"live", "cancelled-before-the-call", "cancelled-by-innermost-interceptor-before-it-returns"}[c.Ctx]
 	}
-	return s + c.nameSuffix()
+	return s + c.nameSuffix() + c.chainSuffix()
 }
 
 // ---------------------------------------------------------------- event log
 
 type entry struct {
-	layer     int // 1 = innermost wrapper ... depth = outermost; 0 = the base
+	layer     int // 1 = innermost wrapper ... depth = outermost; 0 = the base; foreignBase+ = a foreign wrapper (chain.go)
+	foreign   *fwInfo
 	kind      string
 	ctx       context.Context // the context this participant was given
 	method    string
@@ -477,6 +485,9 @@ func classifyLog(got, want []int) string {
 			if l == 0 {
 				return "base-called-more-than-once"
 			}
+			if l >= foreignBase {
+				return "foreign-wrapper-called-more-than-once"
+			}
 			return "interceptor-called-more-than-once"
 		}
 	}
@@ -488,12 +499,20 @@ func classifyLog(got, want []int) string {
 	}
 	for _, w := range want {
 		if cnt[w] == 0 {
+			if w >= foreignBase {
+				return "foreign-wrapper-skipped"
+			}
 			return "interceptor-skipped"
 		}
 	}
 	for g := range cnt {
-		if !wantSet[g] {
+		if !wantSet[g] && g < foreignBase {
 			return "unexpected-interceptor"
+		}
+	}
+	for g := range cnt {
+		if !wantSet[g] {
+			return "foreign-wrapper-reached-although-short-circuited"
 		}
 	}
 	return "order"
@@ -509,7 +528,8 @@ type rig struct {
 	wantCC        *grpc.ClientConn
 	names         map[grpc.CallOption]string
 	states        []*layerState
-	wrappersBelow []int // number of real wrapper objects beneath layer i
+	wrappersBelow []int       // number of real wrapper objects beneath layer i
+	foreign       [][]*fwInfo // chain.go: the foreign wrappers of slot i (beneath layer i+1), innermost first
 	probs         []problem
 	obs           []string
 	verbose       bool
@@ -532,7 +552,17 @@ func newRig(c caseT, verbose bool) *rig {
 	var base grpc.ClientConnInterface
 	switch c.Base {
 	case "rec":
-		base = &recBase{l: l, baseErr: c.BaseErr, stream: &fakeCS{tag: "stream of the recording base"}}
+		rb := &recBase{l: l, baseErr: c.BaseErr, stream: &fakeCS{tag: "stream of the recording base"}}
+		switch c.Root {
+		case "":
+			base = rb
+		case "value":
+			base = recValRoot{recBase: rb, f: &fwInfo{}, tags: []string{"root"}}
+		case "terminal":
+			base = &termRoot{recBase: rb}
+		default:
+			panic("bad root " + c.Root)
+		}
 	case "grpc":
 		base, r.wantCC = realCC, realCC
 	case "inproc":
@@ -542,6 +572,9 @@ func newRig(c caseT, verbose bool) *rig {
 	default:
 		panic("bad base")
 	}
+	if c.Root != "" && c.Base != "rec" {
+		panic("root shapes exist for the recording base only")
+	}
 
 	// wrapping
 	r.names = map[grpc.CallOption]string{}
@@ -549,7 +582,13 @@ func newRig(c caseT, verbose bool) *rig {
 	ch := base
 	r.wrappersBelow = make([]int, depth+1)
 	nWrappers := 0
+	r.foreign = make([][]*fwInfo, depth)
 	for i := 1; i <= depth; i++ {
+		for pos, k := range []byte(c.slot(i - 1)) {
+			var f *fwInfo
+			ch, f = newForeign(l, k, i-1, pos, ch)
+			r.foreign[i-1] = append(r.foreign[i-1], f)
+		}
 		ls := &layerState{idx: i}
 		ls.optU = grpc.Header(&ls.hdrU)
 		ls.optS = grpc.Header(&ls.hdrS)
@@ -564,7 +603,7 @@ func newRig(c caseT, verbose bool) *rig {
 		ch = grpchan.InterceptClientConn(prev, mkUnary(l, ls, cfg.U), mkStream(l, ls, cfg.S))
 		sub := fmt.Sprintf("L%d/%d", i, depth)
 		if cfg.U == bNil && cfg.S == bNil {
-			if ch != prev {
+			if !sameChannel(ch, prev) {
 				r.add(0, "no-interceptors-not-same", sub, fmt.Sprintf("InterceptClientConn(ch, nil, nil) at layer %d returned %T, not the channel given", i, ch))
 			}
 			continue
@@ -573,7 +612,7 @@ func newRig(c caseT, verbose bool) *rig {
 		w, ok := ch.(grpchan.WrappedClientConn)
 		if !ok {
 			r.add(0, "not-a-wrapper", sub, fmt.Sprintf("InterceptClientConn at layer %d returned %T which does not implement WrappedClientConn", i, ch))
-		} else if w.Unwrap() != prev {
+		} else if !sameChannel(w.Unwrap(), prev) {
 			r.add(0, "unwrap", sub, fmt.Sprintf("Unwrap() of layer %d yields a %T which is not the channel that was wrapped (a %T)", i, w.Unwrap(), prev))
 		}
 	}
@@ -637,12 +676,11 @@ func (r *rig) call(n int, kind string, ctx context.Context, cancel context.Cance
 		if kind == "stream" {
 			b = c.Layers[i-1].S
 		}
-		if b == bNil {
-			continue
+		if b != bNil {
+			wantLog = append(wantLog, i)
+			wantOpts[i] = cp(optsNow)
+			wantName[i] = nameNow
 		}
-		wantLog = append(wantLog, i)
-		wantOpts[i] = cp(optsNow)
-		wantName[i] = nameNow
 		if b == bShort {
 			reached = false
 			shortAt = i
@@ -659,6 +697,14 @@ func (r *rig) call(n int, kind string, ctx context.Context, cancel context.Cance
 				optsNow = append(cp(optsNow), states[i].optS)
 				hdrWanted = append(hdrWanted, &states[i].hdrS)
 			}
+		}
+		// the slot beneath layer i: every foreign wrapper in it is passed, outermost first, whether or not the
+		// layer above it has an interceptor of this kind
+		for k := len(r.foreign[i-1]) - 1; k >= 0; k-- {
+			f := r.foreign[i-1][k]
+			wantLog = append(wantLog, f.id)
+			wantOpts[f.id] = cp(optsNow)
+			wantName[f.id] = nameNow
 		}
 	}
 	// a real base is compared with itself: the same call made on it directly, with nothing wrapped around it
@@ -691,7 +737,7 @@ func (r *rig) call(n int, kind string, ctx context.Context, cancel context.Cance
 	case 2:
 		cancelLayer := 0
 		for _, w := range wantLog {
-			if w > 0 {
+			if w > 0 && w < foreignBase {
 				cancelLayer = w // the innermost interceptor reached
 			}
 		}
@@ -763,7 +809,9 @@ func (r *rig) call(n int, kind string, ctx context.Context, cancel context.Cance
 		if c.Spell != 0 || c.renames() {
 			var ns []string
 			for _, e := range es {
-				if e.layer > 0 {
+				if e.foreign != nil {
+					ns = append(ns, fmt.Sprintf("%s:%q", e.foreign.name(), e.method))
+				} else if e.layer > 0 {
 					ns = append(ns, fmt.Sprintf("L%d:%q", e.layer, e.method))
 				} else if realBase {
 					ns = append(ns, fmt.Sprintf("server:%q", e.method))
@@ -778,7 +826,7 @@ func (r *rig) call(n int, kind string, ctx context.Context, cancel context.Cance
 		}
 		var ccs []string
 		for _, e := range es {
-			if e.layer > 0 {
+			if e.layer > 0 && e.foreign == nil {
 				ccs = append(ccs, fmt.Sprintf("L%d:%s", e.layer, ccName(e.cc)))
 			}
 		}
@@ -807,6 +855,8 @@ func (r *rig) call(n int, kind string, ctx context.Context, cancel context.Cance
 			who := fmt.Sprintf("L%d", e.layer)
 			if e.layer == 0 {
 				who = "base"
+			} else if e.foreign != nil {
+				who = e.foreign.name()
 			}
 			real := e.layer == 0 && realBase
 			if real {
@@ -835,7 +885,10 @@ func (r *rig) call(n int, kind string, ctx context.Context, cancel context.Cance
 			if !optsEqual(e.opts, wantOpts[e.layer]) {
 				add("options", kind+"|"+who, fmt.Sprintf("%s call: %s was given options %s, expected %s", kind, who, optNames(names, e.opts), optNames(names, wantOpts[e.layer])))
 			}
-			if e.layer > 0 && e.cc != r.wantCC {
+			if e.layer > 0 && e.foreign == nil && e.cc != r.wantCC && c.isChain() {
+				add("cc", fmt.Sprintf("%s|got=%s|beneath=%s", kind, ccName(e.cc), c.beneath(e.layer)),
+					fmt.Sprintf("%s interceptor of layer %d (of %d; beneath it, outermost first: %s, then the root %s) was given cc = %s, expected %s", kind, e.layer, depth, c.beneath(e.layer), c.rootName(), ccName(e.cc), ccName(r.wantCC)))
+			} else if e.layer > 0 && e.foreign == nil && e.cc != r.wantCC {
 				add("cc", fmt.Sprintf("%s|got=%s|wrappers-beneath=%d", kind, ccName(e.cc), r.wrappersBelow[e.layer]),
 					fmt.Sprintf("%s interceptor of layer %d (of %d, %d wrapper(s) beneath it) was given cc = %s, expected %s", kind, e.layer, depth, r.wrappersBelow[e.layer], ccName(e.cc), ccName(r.wantCC)))
 			}
@@ -1230,6 +1283,26 @@ func fingerprint(c caseT, pr problem) string {
 	if c.Re != nil {
 		return fmt.Sprintf("C17|reentrant|%s|beneath=%d,above=%d,unary=%s,stream=%s|%s>%s|%s|%s", c.Base, c.Re.Inner, c.Re.Above, behNames[c.Re.Cfg.U], behNames[c.Re.Cfg.S], c.Re.K1, c.Re.K2, pr.sub, pr.clause)
 	}
+	if c.isChain() {
+		switch pr.clause {
+		case "cc":
+			return fmt.Sprintf("C17|chain|%s|cc|%s", c.rootName(), pr.sub)
+		case "no-interceptors-not-same", "not-a-wrapper", "unwrap":
+			return fmt.Sprintf("C17|chain|%s|%s|%s|%s", c.rootName(), pr.clause, pr.sub, c.chainPattern("", len(c.Layers)))
+		case "panic":
+			// sub = where (unary | stream | wrapping) and the panic's own text, which names the type or operation
+			// at fault; the thousands of chains that run into the same panic are in the replay objects
+			return fmt.Sprintf("C17|chain|%s|panic|%s", c.rootName(), pr.sub)
+		}
+		kind := pr.sub
+		if i := strings.IndexByte(kind, '|'); i >= 0 {
+			kind = kind[:i]
+		}
+		if kind != "unary" && kind != "stream" {
+			kind = ""
+		}
+		return fmt.Sprintf("C17|chain|%s|%s|%s|base_err=%v|%s", c.rootName(), pr.sub, c.chainPattern(kind, len(c.Layers)), c.BaseErr, pr.clause)
+	}
 	if c.Ctx != 0 {
 		pr.sub += fmt.Sprintf("|ctx=%d", c.Ctx)
 	}
@@ -1321,6 +1394,8 @@ func main() {
 			run = runReentrant
 		} else if c.Seq != nil {
 			run = runSeq
+		} else if c.isChain() {
+			run = runChain
 		}
 		probs, _ := run(c, true)
 		for _, pr := range probs {
@@ -1345,6 +1420,8 @@ func main() {
 	seqBySrc := map[string]int{}
 	var seqSamples []interface{}
 	var reSample interface{}
+	chainCases, chainDistinct, chainByRoot := 0, 0, map[string]int{}
+	var chainSamples []interface{}
 	visit := func(c caseT) {
 		evals++
 		run := runCase
@@ -1355,6 +1432,10 @@ func main() {
 			run = runSeq
 			seqCases++
 			calls++
+		} else if c.isChain() {
+			run = runChain
+			chainCases++
+			chainByRoot[c.rootName()]++
 		}
 		calls += 2
 		probs, obs := run(c, false)
@@ -1375,7 +1456,14 @@ func main() {
 				nonTrivial = true
 			}
 		}
-		if (nonTrivial && c.Seq == nil) || c.Re != nil {
+		if c.isChain() {
+			if chainReachesMechanism(c) {
+				chainDistinct++ // the enumeration produces every chain once
+			}
+			if isChainSample(c) {
+				chainSamples = append(chainSamples, map[string]interface{}{"case": c, "observed": obs})
+			}
+		} else if (nonTrivial && c.Seq == nil) || c.Re != nil {
 			distinct[c.String()] = true
 		}
 		if c.Spell != 0 || c.renames() {
@@ -1391,7 +1479,7 @@ func main() {
 				nameSamples = append(nameSamples, map[string]interface{}{"case": c, "observed": obs})
 			}
 		}
-		if c.Seq == nil && len(samples) < 8 && len(c.Layers) >= 2 && evals%2089 == 0 {
+		if c.Seq == nil && !c.isChain() && len(samples) < 8 && len(c.Layers) >= 2 && evals%2089 == 0 {
 			samples = append(samples, map[string]interface{}{"case": c, "observed": obs})
 		}
 		for _, pr := range probs {
@@ -1424,6 +1512,12 @@ func main() {
 	samples = append(samples, nameSamples...)
 	enumerateSeq(seqFullDepth, seqSweep, visit)
 	samples = append(samples, seqSamples...)
+	enumerateChain(tier == "thorough", visit)
+	samples = append(samples, chainSamples...)
+	chainRule := "depth 1: 16 per layer x slot of 0..3 foreign wrappers (all 85 sequences over P,C,S,F) x all six roots x base outcome; depth 2: roots {rec, rec-value, rec-terminal, grpc} x per layer {pass/pass, pass/nil, nil/pass, addopt/addopt, short/short} x every slot 0..2 wrappers (21 sequences each) x base outcome, roots {inproc, http} x the four shapes per layer x the same slots, outcome ok; depth 3: roots {rec, rec-value, rec-terminal, grpc} x per layer {pass/pass, pass/nil, nil/pass} x every slot one of {empty, P, S, SS, SF, SC}, outcome ok"
+	if tier == "thorough" {
+		chainRule = "depth 1: 16 per layer x slot of 0..3 foreign wrappers (all 85 sequences over P,C,S,F) x all six roots x base outcome; depth 2: roots {rec, rec-value, rec-terminal, grpc} x 16 per layer x every slot 0..2 wrappers (21 sequences each) x base outcome, roots {inproc, http} x six per layer x the same slots x base outcome; depth 3: per layer {pass/pass, pass/nil, nil/pass, addopt/addopt, short/short} (roots inproc, http: the first three) x every slot one of {empty, P, S, SS, SF, SC}, outcome ok"
+	}
 	if n := len(suppressedFPs); n > 0 {
 		fmt.Printf("(%d further distinct fingerprints not reported individually after the first %d)\n", n, maxReported)
 	}
@@ -1444,8 +1538,11 @@ func main() {
 		"method_name_spellings":                           spellingTable(),
 		"real_base_called_directly_reference":             refTable(),
 		"distinct_nontrivial_sequences":                   len(seqDistinct),
-		"distinct_nontrivial":                             len(distinct) + len(seqDistinct),
-		"rule":                                            "every configuration of: wrapping depth 0..3 x per layer (unary {nil,pass,short-circuit,append-an-option} x stream {same}) x base {recording stub, real *grpc.ClientConn over bufconn, inprocgrpc.Channel, httpgrpc.Channel over an in-memory RoundTripper} x base outcome {ok,error}; each makes one unary call and one stream creation (real streams are driven to completion). The caller's context is live, already cancelled (recording base only), or cancelled by the innermost interceptor reached just before it returns (recording base: both kinds; real bases: unary); the base's error is a NotFound status with one detail and must arrive unchanged (identity on the recording base, code+message+details on the real ones). RE-ENTRANT cases: a third-party WrappedClientConn sits between 0-1 pass/pass layers over the base and 1-2 layers above; its first Unwrap() issues a second RPC through the outermost channel on the same goroutine; every interceptor of both RPCs must be given the right cc and see its RPC exactly once. A configuration is non-trivial when at least one layer has an interceptor, i.e. a wrapper object of intercept.go is on the path; distinct by all parameters. SEQUENCE cases (where the context of a call comes from): a first call (unary | stream) on a new context through the outermost wrapper, then a second and a third call (each unary | stream, all four pairs) on ONE context that is {fresh: new and unrelated | same: the caller's context of the first call | stream: Context() of the stream the first call returned, which is still open (request sent, server handler started, nothing read) and is completed after the follow-up calls | icpt@Lj: the context the interceptor of layer j was handed during the first call, for every layer j whose interceptor the first call reaches} x {as it is | context.WithValue of it | context.WithCancel of it}; crossed with base x base outcome x layer configurations " + seqRule + "; every one of the three calls is checked with the full single-call oracle (event log = every applicable layer exactly once, outermost first, then the base; cc; method, messages, options; results). A sequence case is non-trivial when the context is not the fresh one and at least one follow-up call is due to pass an interceptor; distinct by all parameters. Not crossed with the sequences: the cancelled-context modes and the re-entrant third-party wrapper. METHOD NAME (how the caller spells it; all cases above use the spelling of generated stubs, \"/t.C/U\" and \"/t.C/S\"): each of the 10 other spellings of method_name_spellings (no leading slash, empty, \"/\", method only, trailing slash, doubled leading slash, leading space, inner and trailing space, percent-encoded so that unescaping gives the canonical name, bare percent sign) x {unary call, stream creation} x base outcome x [recording base: the complete single-call layer grammar, depth 0..3, 16 per layer | each real base: " + nameRule + "], live context. Every interceptor reached and the recording base must be given exactly the caller's string (and the same request/response objects, StreamDesc pointer and options as ever); a real base is compared with a reference, the same call made on the base channel directly with no wrapper (made twice, must agree; table real_base_called_directly_reference): server handler entered equally often, same method seen by the server, same request read, same status code + message + number of details, same response/messages, same number of header values delivered to every grpc.Header option. Plus, recording base: every spelling (canonical too) x depth 1..3 x per layer (unary {nil, pass, rename} x stream {same}) with at least one renaming interceptor, which hands on the name it was given + \"#L<i>\": every participant further in must be given exactly what the interceptor before it handed on. Spelling cases are counted as non-trivial by the same rule (a wrapper object on the path). Not crossed with the spellings: cancelled contexts, re-entrant and sequence cases. After every call the caller's request message and StreamDesc must read as before.",
+		"chain_cases":                                     chainCases,
+		"chain_cases_by_root":                             chainByRoot,
+		"distinct_nontrivial_chains":                      chainDistinct,
+		"distinct_nontrivial":                             len(distinct) + len(seqDistinct) + chainDistinct,
+		"rule":                                            "every configuration of: wrapping depth 0..3 x per layer (unary {nil,pass,short-circuit,append-an-option} x stream {same}) x base {recording stub, real *grpc.ClientConn over bufconn, inprocgrpc.Channel, httpgrpc.Channel over an in-memory RoundTripper} x base outcome {ok,error}; each makes one unary call and one stream creation (real streams are driven to completion). The caller's context is live, already cancelled (recording base only), or cancelled by the innermost interceptor reached just before it returns (recording base: both kinds; real bases: unary); the base's error is a NotFound status with one detail and must arrive unchanged (identity on the recording base, code+message+details on the real ones). RE-ENTRANT cases: a third-party WrappedClientConn sits between 0-1 pass/pass layers over the base and 1-2 layers above; its first Unwrap() issues a second RPC through the outermost channel on the same goroutine; every interceptor of both RPCs must be given the right cc and see its RPC exactly once. A configuration is non-trivial when at least one layer has an interceptor, i.e. a wrapper object of intercept.go is on the path; distinct by all parameters. SEQUENCE cases (where the context of a call comes from): a first call (unary | stream) on a new context through the outermost wrapper, then a second and a third call (each unary | stream, all four pairs) on ONE context that is {fresh: new and unrelated | same: the caller's context of the first call | stream: Context() of the stream the first call returned, which is still open (request sent, server handler started, nothing read) and is completed after the follow-up calls | icpt@Lj: the context the interceptor of layer j was handed during the first call, for every layer j whose interceptor the first call reaches} x {as it is | context.WithValue of it | context.WithCancel of it}; crossed with base x base outcome x layer configurations " + seqRule + "; every one of the three calls is checked with the full single-call oracle (event log = every applicable layer exactly once, outermost first, then the base; cc; method, messages, options; results). A sequence case is non-trivial when the context is not the fresh one and at least one follow-up call is due to pass an interceptor; distinct by all parameters. Not crossed with the sequences: the cancelled-context modes and the re-entrant third-party wrapper. METHOD NAME (how the caller spells it; all cases above use the spelling of generated stubs, \"/t.C/U\" and \"/t.C/S\"): each of the 10 other spellings of method_name_spellings (no leading slash, empty, \"/\", method only, trailing slash, doubled leading slash, leading space, inner and trailing space, percent-encoded so that unescaping gives the canonical name, bare percent sign) x {unary call, stream creation} x base outcome x [recording base: the complete single-call layer grammar, depth 0..3, 16 per layer | each real base: " + nameRule + "], live context. Every interceptor reached and the recording base must be given exactly the caller's string (and the same request/response objects, StreamDesc pointer and options as ever); a real base is compared with a reference, the same call made on the base channel directly with no wrapper (made twice, must agree; table real_base_called_directly_reference): server handler entered equally often, same method seen by the server, same request read, same status code + message + number of details, same response/messages, same number of header values delivered to every grpc.Header option. Plus, recording base: every spelling (canonical too) x depth 1..3 x per layer (unary {nil, pass, rename} x stream {same}) with at least one renaming interceptor, which hands on the name it was given + \"#L<i>\": every participant further in must be given exactly what the interceptor before it handed on. Spelling cases are counted as non-trivial by the same rule (a wrapper object on the path). Not crossed with the spellings: cancelled contexts, re-entrant and sequence cases. After every call the caller's request message and StreamDesc must read as before. CHAIN (what else is in the chain of channels; all cases above have nothing but grpchan's own layers over a pointer-typed root, plus one pointer-typed third-party wrapper in the re-entrant cases): the chain is layer d > slot d-1 > ... > layer 1 > slot 0 > root; a slot holds a sequence of foreign wrappers (user-written grpchan.WrappedClientConn implementations that hand calls on unchanged and log themselves), each one of P = pointer type, C = comparable struct value, S = struct value with a slice field (not comparable), F = struct value with a func field (another non-comparable type); the root is rec (the recording base, a pointer), rec-value (the recording base as a non-comparable struct value), rec-terminal (a wrapper whose Unwrap() returns nil and which serves the calls itself), grpc, inproc or http. Enumerated: " + chainRule + "; live contexts, canonical names, one unary call and one stream creation each. Oracle: the single-call oracle with the foreign wrappers as participants (each one beneath the outermost layer passed exactly once in chain order unless short-circuited above it, given the method name, message objects, StreamDesc and options of its place in the chain, handing back what it got); Unwrap() of every layer yields the channel it wrapped; cc = the root *grpc.ClientConn for every interceptor on a grpc root through any foreign wrappers, nil on every other root; no panic (recovered per call). A chain case is non-trivial when a layer with an interceptor has a foreign wrapper or an unusual root somewhere beneath it.",
 		"samples":                                         samples,
 		"exhaustive":                                      true,
 		"suppressed_reports":                              len(suppressedFPs),
